@@ -199,15 +199,23 @@ func check(idx *types.Index, m *imodel) string {
 	if j1 != j2 {
 		return "copy is not independent (mutating the copy changed the original)"
 	}
+	pristine := idx.Copy()
 	cp2 := idx.Copy()
+	// both sides grow after the copy: appends on one side must not land in storage the other side uses
+	cp2.AddChildren([]types.Descriptor{dsc(digs[2], nil)})
+	cp2.AddDesc(dsc(digs[1], map[string]string{aTag: "zz3"}))
 	jb := fp(&cp2)
-	// mutate the original (on a scratch copy of the model-independent kind) and compare the copy
+	idx.AddChildren([]types.Descriptor{dsc(digs[3], nil)})
 	idx.AddDesc(dsc(digs[3], map[string]string{aTag: "zz2"}))
 	idx.RmDesc(types.Descriptor{Annotations: map[string]string{aTag: "zz2"}})
+	idx.AddDesc(dsc(digs[0], map[string]string{aTag: "zz4"}))
 	if jb != fp(&cp2) {
 		return "copy is not independent (mutating the original changed the copy)"
 	}
-	*idx = cp2.Copy() // continue with the pristine state (AddDesc+RmDesc above may legitimately leave an untagged entry)
+	*idx = pristine // continue with the pristine state
+	if j1 != fp(idx) {
+		return "copy is not independent (a copy taken before the mutations differs from the original state)"
+	}
 
 	seenTag, seenSubj, plain := map[string]bool{}, map[string]bool{}, map[string]int{}
 	for _, e := range idx.Manifests {
